@@ -77,6 +77,48 @@ def run_fw(pid, kappas, extra=None):
     return rep
 
 
+def observers_phase(rep, pid):
+    """The grammar of the `observers` argument (spec/Observers.tla): every way of writing it enumerated by MC_Observers is executed."""
+    from ..drivers import observers as odrv
+    cfg = f"MC_Observers_{tier()}.cfg"
+    res, states = tlc.dump_states("MC_Observers", cfg, name=f"{pid.lower()}_obs")
+    if res.get("violated"):
+        raise MachineryError(f"MC_Observers/{cfg} violates {res['violated']}:\n{res['out'][-3000:]}")
+    tlc.require_ok(res)
+    scen = [odrv.norm_state(s) for s in states]
+    if len(scen) != res["distinct"]:
+        raise MachineryError(f"dump has {len(scen)} observer scenarios, TLC reports {res['distinct']}")
+    d = workdir(f"traces/{pid.lower()}_obs")
+    per = (len(scen) + 15) // 16
+    jobs = [(scen[i * per:(i + 1) * per], os.path.join(d, f"o{i:02d}.ndjson"), 700_000_000 + i * 1_000_000, "") for i in range(16) if scen[i * per:(i + 1) * per]]
+    jobs += [(scen[k::2], os.path.join(d, f"k{k:02d}.ndjson"), 750_000_000 + k * 1_000_000, f"{pid}obs{k}") for k in range(2)]
+    with mp.Pool(16) as pool:
+        counts = pool.map(odrv.run, jobs)
+    files = sorted(glob.glob(os.path.join(d, "*.ndjson")))
+    n, rej, _ = tlc.validate("TV_Observers", "TV.cfg", files)
+    if n != sum(counts):
+        raise MachineryError(f"observers validator saw {n} events, harness logged {sum(counts)}")
+    rep.set("observer_argument_scenarios", len(scen))
+    rep.set("observer_argument_events", n)
+    rep.set("traces_validated_against_impl", rep.cov.get("traces_validated_against_impl", 0) + n)
+    details = {}
+    if rej:
+        want = {r_[1] for r_ in rej}
+        for p in files:
+            for line in open(p):
+                ev = json.loads(line)
+                if ev["tid"] in want:
+                    details[ev["tid"]] = ev
+    for r_ in rej:
+        _, tid, clause, prop, ctx = r_[:5]
+        ev = details.get(tid, {})
+        c = ev.get("c", {})
+        where = {"clause": clause, "observers": ev.get("what"), "outcome": ctx[1], "agg": c.get("agg"), "kappa": "random" if ev.get("kappa") else "id"}
+        what = f"observers={ev.get('what')} {c.get('field')} nsrc={len(c.get('sources', []))} agg={c.get('agg')} sumup={c.get('sumup')} squeeze={c.get('squeeze')} -> {ctx[1]} shape={ev.get('shape')}: {clause}"
+        rep.reject("Obs" + clause, where, what, ev, prop=(pid if prop == "FW" else prop))
+    rep.phase("observers_grammar")
+
+
 def batch_phase(rep, pid):
     """Law instances on REAL source classes (spec/Batch.tla): element independence (C06), linearity and superposition (C05)."""
     from ..drivers import batch as bdrv
